@@ -5,17 +5,24 @@ from harness import lts_check
 from vlib import paths
 ID = 'C03'
 RUNNER = 'LTS'
-COQ_ROOTS = ['Props/C03.v', 'Props/E2E.v', 'GenProps/Session_consts.v']
+COQ_ROOTS = ['Props/C03.v', 'Props/C03_reuse.v', 'Props/E2E.v', 'GenProps/Session_consts.v']
 RULE = ('A case is (scenario, schedule): client programs (sync/async requests, take_notification, await-disconnect), a scripted '
         'server (replies in any order, duplicates, unknown/missing ids, notifications, unknown messages, EOF/error) and the list of '
         'scheduler decisions at every synchronisation point (lock acquire, event set/wait, queue put/get, connected read, '
         'read/write/select, close). Small scenarios are enumerated depth-first with a pre-emption bound, larger ones are '
-        'random. Distinct = distinct (scenario, decision list); non-trivial = at least one request was registered.')
+        'random. Distinct = distinct (scenario, decision list); non-trivial = at least one request was registered. '
+        'Direct family reuse (real UnixSocketSession on a socketpair, free-running threads, scripted server with an independent reader): '
+        'a case is a history of uses of API objects that are used more than once - the same LockContext entered again (in sequence, nested, '
+        'from several threads, after a denied lock), the same operation repeated through one Manager (sync / pipelined), several Managers on '
+        'one session, a Manager used for several with-blocks, an RPC object request()ed again (after its reply, while outstanding, after a '
+        'time-out, asynchronously) - x the server\'s answer policy per arrival (at once / held / later than the time limit, ok / rpc-error) '
+        'x profile x base 1.0/1.1.')
 ASSUMES = ['CPython executes the code between two instrumented synchronisation points atomically with respect to the other managed threads (GIL + cooperative scheduler)',
            'uuid4 message-ids are unique (fresh-id oracle of the LTS; a trace violating it is rejected by the model)',
            'threading.Event/Lock/queue.Queue/selectors behave as the instrumented stand-ins (tools/harness/sched.py)']
 TRUSTED = ['modelled, not verified: threading, queue, selectors, the in-memory transport; inbound framing is composed with the LTS (Props/E2E.v, byte-level replay of the recorded reads by tools/harness/e2e_check.py; the concrete classifier of message texts Model/Classify.v is a scanner, the theorems hold for every classifier), outbound framing is C02',
-           'tools/harness/sched.py, lts.py, lts_check.py (scheduler, effect log -> label mapping, oracles)']
+           'tools/harness/sched.py, lts.py, lts_check.py (scheduler, effect log -> label mapping, oracles)',
+           'tools/harness/reuse.py (scripted server, one log shared by server and callers; every verdict is an order of log entries or a content mismatch, durations only give an early return time to show itself)']
 
 def _corpus():
     out = []
@@ -26,19 +33,84 @@ def _corpus():
         out.append(d)
     return out
 
+# ---- direct family: API objects that are used more than once (tools/harness/reuse.py; model coq/Model/ApiReuse.v)
+def _reuse_cases(tier, rng):
+    from harness import reuse
+    if tier == 'quick':
+        return reuse.core_cases() + [reuse.gen_case(rng) for _ in range(30)]
+    return reuse.all_cases() + [reuse.gen_case(rng) for _ in range(400)]
+
+def _case_of(rec):
+    return dict(check='reuse', **{k: v for k, v in rec.items() if not k.startswith('_')})
+
+def run_reuse(ctx):
+    from harness import reuse
+    model = reuse.reuse_model(ctx)
+    results = reuse.judge_many(_reuse_cases(ctx.tier, ctx.rng))
+    outs = model.batch([reuse.model_call(rec['_uses'])[0] for _, rec in results]) if model is not None else [None] * len(results)
+    for (f, rec), mo in zip(results, outs):
+        case = _case_of(rec)
+        ctx.count(case, nontrivial=rec['_wire'] > 1, key=['reuse', case])
+        ctx.traces += 1
+        ctx.hist('reuse', '%d thread(s)/%s/%s' % (len(case['threads']), case['profile'], '1.1' if case['base11'] else '1.0'))
+        ctx.hist('reuse_calls', 'refused' if rec['_refused'] else 'all sent')
+        if mo is not None:
+            d = reuse.compare(rec['_uses'], mo)
+            if d:
+                ctx.disagree(case, 'Model/ApiReuse.v: which uses make a request of their own', d, 'uses of API objects vs the API model', theorem='C03_reuse_refused')
+        if f and f.startswith('rig:'):
+            ctx.note(f)
+        elif f:
+            ctx.fail(case, f, sig=None, expected='property %s' % ID, actual=f)
+
 def run(ctx):
     q = ctx.tier == 'quick'
+    run_reuse(ctx)
     lts_check.check(ctx, ID, n_random=500 if q else 6000, dfs_bound=2 if q else 3, dfs_cap=350 if q else 6000, corpus=_corpus())
 
 def search(ctx, seeds):
+    from harness import reuse
+    for f, rec in reuse.judge_many(_reuse_cases('quick', ctx.rng)):
+        if f and not f.startswith('rig:'):
+            return dict(case=_case_of(rec), what=f, sig=None, expected='property %s' % ID, actual=f)
     return lts_check.search(ctx, ID, seeds)
 
 def reproduce(finding):
     w = finding['witness']
+    if w.get('check') == 'reuse':
+        from harness import reuse
+        return reuse.judge(w)[0]
     w['spec']['clients'] = [[tuple(op) for op in ops] for ops in w['spec']['clients']]
     w['spec']['server'] = [tuple(a) for a in w['spec']['server']]
     sc = lts_check.run_case(w['spec'], decisions=list(w['decisions']), rng_after=False)
     return lts_check.ORACLES[ID](sc) is not None
 
 def replay(doc):
+    if 'case' not in doc:                # a replay of kind "obligation": broken proofs / ties, model disagreements
+        ok = not doc.get('broken')
+        for b in doc.get('broken', []):
+            print('broken    :', b.get('kind'), b.get('what') or b.get('file') or '', (b.get('log') or '')[-300:])
+        seen = []
+        for d in doc.get('correspondence', []):
+            c = d.get('case', {})
+            if c.get('check') == 'reuse' and c not in seen:
+                seen.append(c)
+                ok = replay({'case': c}) and ok
+            elif c.get('check') != 'reuse':
+                print('disagreement (not re-run here):', d.get('what'), '-', str(d.get('actual'))[:200]); ok = False
+        return ok
+    c = doc['case']
+    if c.get('check') == 'reuse':
+        from harness import reuse
+        f, rec = reuse.judge(c)
+        print('case      :', _case_of(rec))
+        print('expected  : property %s holds (message-ids on the wire pairwise distinct; no call completes before the server answered '
+              'its request; every call completes with the answer to its own request; the session survives)' % ID)
+        print('actual    :', f or 'holds', {k: v for k, v in rec.items() if k in ('_calls', '_wire', '_refused')})
+        model = reuse.reuse_model()
+        if model is not None:
+            d = reuse.compare(rec['_uses'], model.call(reuse.model_call(rec['_uses'])[0]))
+            print('model     :', d or 'the calls did what Model/ApiReuse.v says (sent / refused)')
+            if d and not f: return False
+        return f is None
     return lts_check.replay(doc, ID)
